@@ -1,5 +1,6 @@
 import Mixin.Model.Base58
 import Mixin.Model.Keys
+import Mixin.Proofs.Base58
 import Mathlib.Algebra.Module.Basic
 import Mathlib.Data.ZMod.Basic
 /-!
@@ -38,5 +39,85 @@ theorem view_recovers_spend (g : G) (Hs : G → I → ZMod ℓ) (a r : ZMod ℓ)
   rw [smul_comm a r g, add_sub_cancel_right]
 
 end Ghost
+
+/-! The executable model works with discrete logarithms modulo `ell`; its operations are the
+abstract ones read in `ZMod ell` (a point `x • g` is represented by `x`). -/
+
+theorem derivePubDl_cast (bv hs : ℕ) : ((derivePubDl bv hs : ℕ) : ZMod ell) = (bv : ZMod ell) + hs := by
+  simp [derivePubDl, ZMod.natCast_mod]
+
+theorem derivePrivDl_cast (hs b : ℕ) : ((derivePrivDl hs b : ℕ) : ZMod ell) = (hs : ZMod ell) + b := by
+  simp [derivePrivDl, ZMod.natCast_mod]
+
+theorem viewOutDl_cast (p hs : ℕ) : ((viewOutDl p hs : ℕ) : ZMod ell) = (p : ZMod ell) - hs := by
+  have hle : hs % ell ≤ ell := Nat.le_of_lt (Nat.mod_lt _ (by decide))
+  simp [viewOutDl, ZMod.natCast_mod, Nat.cast_sub hle, ZMod.natCast_self]
+  ring
+
+/-- the model's own agreement: same hash ⇒ same discrete log -/
+theorem ghost_dl_agree (hs b : ℕ) : derivePrivDl hs b = derivePubDl b hs := by
+  simp [derivePrivDl, derivePubDl, Nat.add_comm]
+
+example : derivePub? 5 7 11 = some 18 ∧ derivePriv? 3 11 7 = some 18 ∧ viewOut? 18 3 11 = some 7 := by decide
+example : derivePub? 0 7 11 = none ∧ derivePriv? 0 11 7 = none := by decide
+
+
+/-! ## (b) base58 -/
+
+open Mixin.Base58
+
+/-- the strings `base58.Decode` does not answer with the empty byte string for: every byte is
+    in the alphabet (`b58[c] ≠ 255`) -/
+abbrev Valid := Mixin.Base58.Valid
+
+/-- `Decode` evaluates its input exactly when every byte is in the alphabet … -/
+theorem base58_accepts_iff (s : Bytes) : (decode? s).isSome ↔ Valid s := by
+  by_cases h : Valid s
+  · simp [decode?_eq_conv s h, h]
+  · simp [decode?_none s h, h]
+
+/-- … and answers the empty byte string otherwise. -/
+theorem base58_decode_invalid (s : Bytes) (h : ¬ Valid s) : decode s = [] := by
+  simp [decode, decode?_none s h]
+
+/-- The ten-characters-at-a-time loop of `Decode` is plain positional evaluation in base 58. -/
+theorem decode_chunked_eq (s : Bytes) (h : Valid s) :
+    decodeLoop s.length s 0 = some (ofBE 58 (s.map b58)) :=
+  decodeLoop_eq _ _ _ (Nat.le_refl _) h
+
+/-- The `58^10`-at-a-time loop of `Encode` is plain repeated division by 58. -/
+theorem encode_chunked_eq (x : Nat) : encodeLoop x x = (digitsLE 58 x).map alpha := by
+  rw [encodeLoop_eq _ _ (Nat.le_refl _), digitsLE_eq (by decide)]
+
+/-- `Decode(Encode(b)) = b` for every byte string. -/
+theorem base58_decode_encode (bs : Bytes) : decode (encode bs) = bs := by
+  have hlt := conv_lt (b1 := 256) (b2 := 58) (by decide) (bs.map UInt8.toNat)
+  rw [encode_eq_conv]
+  unfold decode
+  rw [decode?_eq_conv _ (valid_map_alpha _ hlt), map_b58_alpha _ hlt]
+  simp only [Option.getD_some]
+  rw [conv_roundtrip (by decide) (by decide) _ (map_toNat_lt bs), map_toUInt8_toNat]
+
+/-- `Encode(Decode(s)) = s` for every string over the alphabet. -/
+theorem base58_encode_decode (s : Bytes) (h : Valid s) : encode (decode s) = s := by
+  have hlt := conv_lt (b1 := 58) (b2 := 256) (by decide) (s.map b58)
+  unfold decode
+  rw [decode?_eq_conv s h]
+  simp only [Option.getD_some]
+  rw [encode_eq_conv, map_toNat_toUInt8 _ hlt, conv_roundtrip (by decide) (by decide) _ (map_b58_lt s h),
+    map_alpha_b58 s h]
+
+theorem encode_valid (bs : Bytes) : Valid (encode bs) := by
+  rw [encode_eq_conv]
+  exact valid_map_alpha _ (conv_lt (by decide) _)
+
+example : Valid [49, 50, 122] := by
+  show ∀ c ∈ [49, 50, 122], b58 c ≠ 255
+  decide
+example : ¬ Valid [49, 48] := by
+  show ¬ ∀ c ∈ [49, 48], b58 c ≠ 255
+  decide
+example : encode [0, 0, 1, 2] = [49, 49, 53, 84] ∧ decode [49, 49, 53, 84] = [0, 0, 1, 2] := by decide
+example : decode [49, 48, 50] = [] := by decide
 
 end Mixin.C32
